@@ -184,7 +184,12 @@ pub fn wrap_file(src: &mut Src, codestream: &[u8], cs_marks: &[usize], frame_end
             marks.push(file.len());
             pi += 1;
         } else {
-            let b = aux[ai].clone();
+            let mut b = aux[ai].clone();
+            // a metadata box may be the last box and run to the end of the file (size field 0)
+            if last && src.tail_fork_bytes(2)[1] % 3 == 0 {
+                b.form = SizeForm::ToEof;
+                classes.push("aux:to-eof".into());
+            }
             push_box(&mut file, &mut marks, &b);
             ai += 1;
         }
